@@ -44,6 +44,8 @@ void AnnotateIgnoreReadsEnd(const char*,int) __attribute__((weak));
 void AnnotateIgnoreWritesBegin(const char*,int) __attribute__((weak));
 void AnnotateIgnoreWritesEnd(const char*,int) __attribute__((weak));
 }
+extern "C" { void AnnotateHappensBefore(const char*,int,const volatile void*) __attribute__((weak)); void AnnotateHappensAfter(const char*,int,const volatile void*) __attribute__((weak)); }
+namespace simk { void hb_release(const void *t){ if(AnnotateHappensBefore) AnnotateHappensBefore(__FILE__,__LINE__,t); } void hb_acquire(const void *t){ if(AnnotateHappensAfter) AnnotateHappensAfter(__FILE__,__LINE__,t); } }
 namespace {
 struct Ign {
 	Ign() { if(AnnotateIgnoreReadsBegin) { AnnotateIgnoreReadsBegin(__FILE__,__LINE__); AnnotateIgnoreWritesBegin(__FILE__,__LINE__); } }
